@@ -88,6 +88,10 @@ pub struct Connection {
     
     /// Client name (set via CLIENT SETNAME)
     pub name: Option<String>,
+    
+    /// Requests that arrived behind a blocking command in the same read: they wait here
+    /// until the connection is unblocked
+    pub deferred_frames: std::collections::VecDeque<RespFrame>,
 }
 
 impl Connection {
@@ -115,6 +119,7 @@ impl Connection {
             transaction_state: TransactionState::default(),
             is_monitoring: false,
             name: None,
+            deferred_frames: std::collections::VecDeque::new(),
         })
     }
     
